@@ -152,7 +152,9 @@ def merge_stats(acc, s):
     if acc is None:
         return json.loads(json.dumps(s))
     for k, v in s.items():
-        if isinstance(v, (int, float)) and not isinstance(v, bool):
+        if k.startswith("max_") and isinstance(v, (int, float)):
+            acc[k] = max(acc.get(k, 0), v)        # high-water marks, not counters
+        elif isinstance(v, (int, float)) and not isinstance(v, bool):
             acc[k] = acc.get(k, 0) + v
         elif isinstance(v, dict):
             a = acc.setdefault(k, {})
